@@ -160,7 +160,7 @@ FOREIGN_VERSIONS = ("0.9", "2.0")  # never the current version
 HOURS = (1, 25, 24 * 31)
 ENTRY_KINDS = ("junk", "truncated", "empty", "missing_class", "missing_module")
 LAYOUT_HOW = ("extra_column", "renamed_column", "dropped")
-FILE_KINDS = ("text", "truncated", "zero")
+FILE_KINDS = ("text", "truncated", "zero", "index_swap")
 TRUNC_SIZES = (10, 100, 1000, 4096, 5000, 8192)
 EVENTS = ("reload", "version_change", "expiry", "corrupt_entry", "wrong_layout", "corrupt_file", "delete_db")
 
@@ -511,6 +511,41 @@ class Sim:
                 self.ctx.extra["noop:corrupt_file"] += 1
                 return
             self.db.write_bytes(self.db.read_bytes()[:n])
+        elif kind == "index_swap":
+            # Page-wise well-formed, but the primary-key INDEX entry of one cached text now carries
+            # the hash of another pool text, so index and table disagree (a lookup through the
+            # index would serve the wrong tree).  Same length, so the b-tree cells stay valid.
+            if not self.db.exists():
+                self.ctx.extra["noop:corrupt_file"] += 1
+                return
+            data = bytearray(self.db.read_bytes())
+            valid = [k for k in range(len(self.texts)) if not self.is_broken[k]]
+            done = False
+            for off in range(len(valid)):
+                k = valid[(n + off) % len(valid)]
+                hk = self.hashes[k].encode()
+                others = [j for j in valid if self.hashes[j] != self.hashes[k] and self.ref[j] != self.ref[k]]
+                if not others:
+                    continue
+                hj = self.hashes[others[n % len(others)]].encode()
+                pos, spots = data.find(hk), []
+                while pos >= 0:
+                    spots.append(pos)
+                    pos = data.find(hk, pos + 1)
+                for pos in spots:
+                    tail = bytes(data[pos + len(hk): pos + len(hk) + 40])
+                    if b"\x80" in tail[:24]:
+                        continue  # the table record: hash, version, then the pickle (starts with 0x80)
+                    data[pos: pos + len(hk)] = hj
+                    done = True
+                    break
+                if done:
+                    break
+            if not done:
+                self.ctx.extra["noop:corrupt_file"] += 1
+                return
+            self.db.write_bytes(bytes(data))
+            self.ctx.extra["index_swap_applied"] += 1
         else:
             raise AssertionError(kind)
         self._event("corrupt_file")
